@@ -169,7 +169,7 @@ const STRS: &[&str] = &["", "A", "BC", "ｱ", "あ", "ソ", "表", "Hello", "AB"
 
 /// STRS plus (with `long_k` = k) ONE string whose Shift-JIS encoding has a double-byte character straddling offset k
 /// (k-1 single bytes, then kana): readers that work in blocks of k bytes must not split a character.  k cycles over the
-/// powers of two from 64 to 512 (4096 in the thorough tier).
+/// powers of two from 64 to 512 (1024 in the thorough tier).
 fn str_pool(long_k: Option<usize>) -> Vec<String> {
     let mut v: Vec<String> = STRS.iter().map(|s| s.to_string()).collect();
     if let Some(k) = long_k {
@@ -188,13 +188,13 @@ fn str_pool(long_k: Option<usize>) -> Vec<String> {
 fn random_content(rng: &mut Rng, maxcells: usize, allow_cstr: bool, variety: Option<usize>) -> Value {
     let endian = if rng.chance(1, 2) { "le" } else { "be" };
     let label_heavy = variety.map(|i| i % 7 == 6).unwrap_or(false);
-    let cells = if label_heavy { maxcells } else { rng.below(maxcells + 1) };
+    let cells = if label_heavy { maxcells.min(28) } else { rng.below(maxcells + 1) };
     let extra = if rng.chance(1, 4) { rng.range(1, 3) } else { 0 }; // unaligned tail
     let size = cells * 4 + extra;
     let data = rng.bytes(size);
     let (mut text, mut ptrs, mut cstr) = (vec![], vec![], vec![]);
     let long_k = match variety {
-        Some(i) if i % 6 == 5 => Some(64usize << ((i / 6) % if tier_is_quick() { 4 } else { 7 })),
+        Some(i) if i % 6 == 5 => Some(64usize << ((i / 6) % if tier_is_quick() { 4 } else { 5 })),
         _ => None,
     };
     let pool = str_pool(long_k);
